@@ -29,6 +29,13 @@ def run(ctx):
     gl = ctx.tlc("MC_Iface", "Gen_Iface.cfg", workers=1, timeout=1500, constants={"MaxOps": 3 if q else 4, "V": '{"l1", "l2"}', "M": "<- ML", "Kinds": '{"stub"}', "Args": "{7}"},
                  tag="all histories over two same-named function-local interface types")
     behs += ctx.behaviours(gl)
+    # TWO stubbed methods of one variable, the builder dropped, collections, then calls of EITHER method (every replacement of a variable
+    # that is still held must stay alive, not only the one installed last)
+    gd = ctx.tlc("MC_Iface", "Gen_Iface.cfg", workers=1, timeout=1500, constants={"MaxOps": 5 if q else 6, "V": '{"i1"}', "M": "<- M1h", "Kinds": '{"stub", "when"}' if q else '{"stub", "when", "apply"}', "Args": "{7}", "Ops": '{"Mock", "Drop", "GC", "Call"}'},
+                 tag="two methods of one variable, Drop, GC, Call: all histories")
+    db = [b for b in ctx.behaviours(gd) if b[-1]["op"] == "Call" and {"Drop", "GC"} <= {x["op"] for x in b} and sum(1 for x in b if x["op"] == "Mock") >= 2]
+    ctx.note("two-method Drop / GC histories: %d" % len(db))
+    behs += db
     # sequenced stubs on interface methods (As(f).Returns(r1, r2): the first call r1, every later one r2 - C05 for interface mocks)
     gs = ctx.tlc("MC_Iface", "Gen_Iface.cfg", workers=1, timeout=1500, constants={"MaxOps": 4 if q else 5, "V": '{"i1"}', "M": "<- M1a", "Kinds": '{"seq"}', "Args": "{7}"},
                  tag="all histories with sequenced stubs, one variable")
